@@ -22,7 +22,7 @@ META = {
     "congruent to the exact function of the operand angles, SE(3) | |q| - 1 | <= 8 k eps after k operations, finiteness; (chain) every word of length <= 2 iterated periodically to 1e3 "
     "(thorough 1e4; length 3 to 1e3) operations; (opt) SE(3) SLAM families optimised 50 iterations one at a time, norms checked after each; (optk) one optimize(tol=0, max_iter=k) call for EVERY k in 1..50. non-trivial = node reached by a word containing a rotation",
     "assumptions": ["exhaustive in the generating word, not over all 1e4-long words", "drift bound 8 k eps (measured <= 1.0 k eps on the pinned tree)"],
-    "required_classes": ["wrap", "wrap:plus_pi_reached", "ctor", "load", "opt_single_call", "normalize", "tree:SE2", "tree:SE3", "chain:SE2", "chain:SE3", "opt_history", "w_negative", "angle_seam"],
+    "required_classes": ["wrap", "wrap:plus_pi_reached", "ctor", "load", "mat", "intctor", "halfturn", "opt_single_call", "normalize", "tree:SE2", "tree:SE3", "chain:SE2", "chain:SE3", "opt_history", "w_negative", "angle_seam"],
     "bounds": {"quick": "tree depth 4; chains: words <= 2 to 1e3 operations; optimizer histories 50 iterations", "thorough": "tree depth 5; chains: words <= 2 to 1e4, words of length 3 to 1e3"},
 }
 
@@ -161,7 +161,7 @@ def run_chunk(chunk, tier, seed):
         from graphslam.util import neg_pi_to_pi
 
         for ang in A.ANG_DENSE():
-            for which in ("wrap", "ctor", "load"):
+            for which in ("wrap", "ctor", "load", "mat"):
                 case = {"t": which, "a": ang}
                 acc.evals += 1
                 acc.states += 1
@@ -175,6 +175,19 @@ def run_chunk(chunk, tier, seed):
                 if msgs:
                     acc.violation(case, msgs)
                 acc.sample(case, 1)
+        extra = [{"t": "intctor", "a": k, "pos": pos} for k in range(-10, 11) for pos in ("int", "float")]
+        extra += [{"t": "halfturn", "a": math.pi, "z": [z1, z2], "tr": tr} for z1 in (0.0, -0.0, 1.2246467991473532e-16, -1.2246467991473532e-16) for z2 in (0.0, -0.0, 1.2246467991473532e-16, -1.2246467991473532e-16) for tr in ([0.0, 0.0], [3.0, -4.0])]
+        for case in extra:
+            acc.evals += 1
+            acc.states += 1
+            acc.transitions += 1
+            acc.traces += 1
+            acc.nontrivial += 1
+            acc.cls(case["t"])
+            msgs, r = _eval_wrap(case)
+            if msgs:
+                acc.violation(case, msgs)
+            acc.sample(case, 1)
     elif typ == "normalize":
         for q in A.Q("thorough", seed):
             for sc in (1e-3, 1.0, 1e3):
@@ -322,7 +335,7 @@ def _chain(acc, kind, seed, word, n):
 
 def eval_case(case):
     t = case["t"]
-    if t in ("wrap", "ctor", "load"):
+    if t in ("wrap", "ctor", "load", "mat", "intctor", "halfturn"):
         return _eval_wrap(case)[0]
     if t == "optk":
         return _eval_optk(case)[0]
@@ -353,6 +366,18 @@ def _eval_wrap(case):
     msgs = []
     if case["t"] == "wrap":
         r = float(neg_pi_to_pi(a))
+    elif case["t"] == "mat":
+        # construction from a homogeneous matrix (entries from the C library's cos / sin of the angle)
+        c_, s_ = math.cos(a), math.sin(a)
+        r = float(I.CLS["SE2"].from_matrix(np.array([[c_, -s_, 1.0], [s_, c_, -2.0], [0.0, 0.0, 1.0]]))[2])
+    elif case["t"] == "halfturn":
+        # a half turn written with exact -1 on the diagonal and zeros / rounding-size entries of either sign off the diagonal
+        z1, z2 = case["z"]
+        r = float(I.CLS["SE2"].from_matrix(np.array([[-1.0, z1, case["tr"][0]], [z2, -1.0, case["tr"][1]], [0.0, 0.0, 1.0]]))[2])
+    elif case["t"] == "intctor":
+        # all-integer arguments (Python ints) are the same numbers
+        pos = [1, 2] if case["pos"] == "int" else [1.0, 2.0]
+        r = float(I.CLS["SE2"](pos, int(a))[2])
     elif case["t"] == "load":
         # the pose the .g2o loader produces for a VERTEX_SE2 line carrying this angle
         import os
